@@ -132,5 +132,11 @@ def run(ctx):
                                    {"sim": simname, "gates": names, "input": inp, "swap": k})
         ctx.validated()
     ctx.notes["direct_replays"] = {"relabelled_pairs": n_rel, "commuted_pairs": n_comm}
+    ctx.tick("optics")
+    # Gaussian measurements of ORDERED mode tuples: PqDyne proves that the conditional state does not depend on the order in which the
+    # measured modes are listed; the replay checks sampling law, outcome order and conditional state for ascending and non-ascending tuples
+    from . import c02
+    c02.part_dyne_spec(ctx, pq, quick, random.Random(ctx.seed + 16), pid="C16")
+    ctx.tick("dyne_order")
     ctx.sample({"permutation": perms[0], "gates": [g["name"] + str(g["modes"]) for g in gates[:4]]})
     ctx.assumptions += ["Gaussian and fermionic simulators: relabelling is covered by the ordered-mode-tuple replays of C07 / C17 when those checks are present"]
